@@ -110,7 +110,7 @@ INFO.update({
         'decides': 'configuration guard max <= 2*context => Err dominating the window-length subtraction, tiling shape (start 0, next start '
                    '= pushed end, loop until len), window_end formulas, no-progress => Err before push (byte), Window field table, context '
                    'formulas, count_until budget test',
-        'not_decided': ['the size bound of a context as a value statement', 'CharString::char_range_to_byte_range correctness'],
+        'not_decided': ['the size bound of a context as a value statement', 'that positions computed from the run-length table equal the prefix sums of the cluster lengths as a value statement (the shapes of run_length_encode / decode and byte_start_end are checked)'],
     },
     'C18': {
         'decides': 'term-by-term reconstruction of the LCS recurrence (2-D offsets, +[match], Match iff matching), last-maximum selector, '
